@@ -387,6 +387,45 @@ Section Walk2.
     destruct e2; [exact P2|].
     apply run_steps_preserve; assumption.
   Qed.
+
+  (* the same with the side condition on the source entry *)
+  Lemma sync_ws_untouched_src : forall fuel o deep sdir ddir subdir k,
+    alookup k sdir = None \/ (excluded o k = true /\ forall es, alookup k sdir <> Some (Dir es)) ->
+    alookup k (fst (sync_ws frepr cf fuel o deep sdir ddir subdir)) = alookup k ddir.
+  Proof.
+    destruct fuel as [|fuel]; intros o deep sdir ddir subdir k Hk; [reflexivity|].
+    rewrite sync_ws_S.
+    set (P := fun d : dir => alookup k d = alookup k ddir).
+    assert (S1 : forall n d, P d -> P (fst (step1 cf o sdir n d))).
+    { intros n d Hd. unfold P in *. rewrite <- Hd.
+      destruct (str_eq_dec k n) as [->|Hne]; [|apply step1_frame; assumption].
+      unfold step1. destruct Hk as [Hk|[Hk _]]; [|rewrite Hk; reflexivity].
+      destruct (excluded o n); [reflexivity|]. rewrite Hk. reflexivity. }
+    assert (S2 : forall n d, P d -> P (fst (step2 cf o sdir subdir n d))).
+    { intros n d Hd. unfold P in *. rewrite <- Hd.
+      destruct (str_eq_dec k n) as [->|Hne]; [|apply step2_frame; assumption].
+      unfold step2. destruct Hk as [Hk|[Hk _]]; [|rewrite Hk; reflexivity].
+      destruct (excluded o n); [reflexivity|]. rewrite Hk.
+      destruct (o_strategy o); reflexivity. }
+    assert (S3 : forall n d, P d -> P (fst (step3 (sync_ws frepr cf fuel o deep) o sdir subdir n d))).
+    { intros n d Hd. unfold P in *. rewrite <- Hd.
+      destruct (str_eq_dec k n) as [->|Hne]; [|apply step3_frame; assumption].
+      unfold step3. destruct (o_recursive o); [|reflexivity].
+      destruct Hk as [Hk|[_ Hk]]; [rewrite Hk; reflexivity|].
+      destruct (alookup n sdir) as [[c m|ses]|] eqn:Es; try reflexivity.
+      exfalso. apply (Hk ses). reflexivity. }
+    destruct (run_steps (step1 cf o sdir) (of_cls frepr cf deep sdir ddir LeftOnly) ddir) as [d1 e1] eqn:E1.
+    assert (P1 : P d1).
+    { replace d1 with (fst (run_steps (step1 cf o sdir) (of_cls frepr cf deep sdir ddir LeftOnly) ddir))
+        by (rewrite E1; reflexivity). apply run_steps_preserve; [assumption|reflexivity]. }
+    destruct e1; [exact P1|].
+    destruct (run_steps (step2 cf o sdir subdir) (of_cls frepr cf deep sdir ddir Diff) d1) as [d2 e2] eqn:E2.
+    assert (P2 : P d2).
+    { replace d2 with (fst (run_steps (step2 cf o sdir subdir) (of_cls frepr cf deep sdir ddir Diff) d1))
+        by (rewrite E2; reflexivity). apply run_steps_preserve; assumption. }
+    destruct e2; [exact P2|].
+    apply run_steps_preserve; assumption.
+  Qed.
 End Walk2.
 
 Section Walk3.
